@@ -270,6 +270,10 @@ def stepCore (s : St) (kind : String) (args impl : List String) : Option (St × 
       | ["panic"] => [s!"side=impl key=panic HasPiece panicked for index {pi}"]
       | _ => []
     pure (s, { obs := obs, branch := s!"has.{obs.headD ""}", propfails := pf })
+  | ["closefail"] =>
+    -- the next Close of the download file handle reports an error; WritePiece ignores it (the bytes were
+    -- written and verified before): no effect in the model
+    some (s, { obs := ["ok"], branch := "closefail" })
   | ["recreate"] =>
     if !quiescent s.m then none else
     some ({ s with m := KrakenModel.AgentTorrent.step crc32 s.m .recreate, verified := [], ws := [] },
